@@ -13,7 +13,7 @@ def c06(ctx: Ctx):
     ctx.assumptions = [
         "TLC; spec/BodyCheck.tla + spec/MediaSelect.tla as the contract (SelectLaws, WrapLaws, ExclusionLaws checked by TLC); SchemaSem 'asreq' reading",
         "harness realiser harness/c06.go: bodies encoded with encoding/json, url.Values and mime/multipart; each declared JSON-family entry accepts only bodies carrying its own marker property so the selected entry is observable through the verdict",
-        "left open (excluded): absent Content-Type or a text body when */* is declared (declared, but the library has no decoder to apply)",
+        "left open (excluded): an entry WITH a schema selected for a body no decoder is registered for (absent Content-Type, image/png under */*)",
         "left open (excluded): a text/plain body of digits against a schema of type integer (whether the text 42 is the integer 42); undeclared fields of form bodies",
     ]
     if is_registry_replay(ctx):
@@ -41,7 +41,13 @@ def c06(ctx: Ctx):
                 "bodies x ExcludeReadOnlyValidations x per-property encoding) + text/plain bodies x 8 text schemas (6 without a type keyword) "
                 "+ multipart parts decoded as plain text (no part Content-Type / text/plain) x typed and untyped properties "
                 "+ (object schemas S1/S2/S7 (read-only and write-only properties) x 10 wraps (anyOf, oneOf, allOf, items, property, nested) "
-                "x 7 bodies x ExcludeReadOnlyValidations; form / multipart under allOf); every case distinct and judged")
-    ctx.validate("Trace_C06", "Trace_C06.cfg", logp, chunk_lines=60)
+                "x 7 bodies x ExcludeReadOnlyValidations; form / multipart under typed allOf / anyOf / oneOf) "
+                "+ round 6b: selection over JSON and text entries incl. entries without a schema x 9 headers; empty bodies in 4 forms x required x 4 headers; "
+                "YAML and octet-stream bodies; charset parameters on key / header per decoder family; structure characters in urlencoded strings (+ and %XX spellings); "
+                "pipe / space delimited arrays; multipart parts as application/json (typed, nested object) and as files, 3 boundary spellings; "
+                "14 kinds of body text that encode nothing (must be rejected); pretty / escaped JSON and flow YAML spellings; the decoder alias media types; "
+                "the opt-in zip decoder; text/csv; a deepObject object property of a urlencoded body; booleans and numbers (schema S9) under every decoder; "
+                "every case distinct and judged")
+    ctx.validate("Trace_C06", "Trace_C06.cfg", logp, chunk_lines=480)
     if not ctx.replay:
         registry_clause(ctx)
